@@ -1589,6 +1589,10 @@ sf_seek	(SNDFILE *sndfile, sf_count_t offset, int whence)
 
 		retval = psf->seek (psf, new_mode, seek_from_start) ;
 
+		/* A failed seek must not leave -1 in the read/write positions. */
+		if (retval < 0)
+			return retval ;
+
 		switch (new_mode)
 		{	case SFM_READ :
 					psf->read_current = retval ;
